@@ -19,8 +19,9 @@ func init() { core.Register(c19{base{"C19", "exploration", 8000, 300000}}) }
 
 func (c19) Describe() core.Description {
 	return core.Description{
-		Isolated:  true,
-		Technique: "deterministic simulation of a framed byte stream (the style quicwire was written for) delivered in plan-chosen segments down to one byte at a time, with corrupted length prefixes and truncated ends; the receiver parses incrementally with the real consumers while an own RFC 9000 decoder runs beside it as reference model on every prefix; append/size checked against the four class limits; arena guards and a second run under other spare-capacity contents detect dependence on bytes beyond the slice",
+		Isolated:        true,
+		AddressSpaceGiB: 12,
+		Technique:       "deterministic simulation of a framed byte stream (the style quicwire was written for) delivered in plan-chosen segments down to one byte at a time, with corrupted length prefixes and truncated ends; the receiver parses incrementally with the real consumers while an own RFC 9000 decoder runs beside it as reference model on every prefix; append/size checked against the four class limits; arena guards and a second run under other spare-capacity contents detect dependence on bytes beyond the slice",
 		Rule: "one evaluation = one consumer or appender call compared with the reference; per run a stream of 5-40 items (varint, varint-prefixed bytes, uint8-prefixed bytes, uint32, uint64) with boundary-biased values ({0,63,64,16383,16384,2^30-1,2^30,2^62-1} +-1 and uniform per class), one segmentation (whole / byte-at-a-time / random cuts), optional length-prefix corruption up to 2^62-1 and optional truncation; " +
 			"non-trivial = a consumer call on a proper prefix of an item (short read) or on a corrupted length; distinct = distinct (item kind, size class, available-bytes class, verdict)",
 		Real:        []string{"quicwire.AppendVarint, SizeVarint, ConsumeVarint, ConsumeVarintInt64, AppendVarintBytes, ConsumeVarintBytes, AppendUint8Bytes, ConsumeUint8Bytes, ConsumeUint32, ConsumeUint64"},
@@ -72,6 +73,10 @@ func (c c19) Generate(seed uint64, tier string, idx int) *core.Plan {
 	}
 	if r.Bool(30) {
 		p.Steps = append(p.Steps, core.Step{Op: "trunc", A: []int64{int64(r.Intn(1 << 20))}})
+	}
+	if idx == 5 {
+		// once per tier: a byte string longer than 2^31 that is fully present must round-trip
+		p.Steps = []core.Step{{Op: "huge", A: []int64{1<<31 + int64(r.Intn(4096))}}}
 	}
 	return p
 }
@@ -137,6 +142,28 @@ func (c c19) Execute(p *core.Plan) *core.Result {
 	}
 	var stream []byte
 	var items []item
+	for si, st := range p.Steps {
+		if st.Op != "huge" {
+			continue
+		}
+		n := int(st.Arg(0, 1<<31))
+		body := make([]byte, n) // zero pages, never written
+		str := quicwire.AppendVarintBytes(make([]byte, 0, n+16), body)
+		str[8], str[len(str)-1] = 0xA7, 0x7A
+		got, k := quicwire.ConsumeVarintBytes(str)
+		res.Evals++
+		res.Nontrivial("huge/" + fmt.Sprint(n>>20) + "MiB")
+		if k != len(str) || len(got) != n || got[0] != 0xA7 || got[n-1] != 0x7A {
+			res.Violate("C19/huge-roundtrip", fmt.Sprintf("a %d-byte string that is fully present does not round-trip through AppendVarintBytes / ConsumeVarintBytes: n=%d (want %d), %d bytes returned", n, k, len(str), len(got)), si)
+		}
+		// one byte short: must be reported, not read out of bounds
+		if _, k2 := quicwire.ConsumeVarintBytes(str[:len(str)-1]); k2 >= 0 {
+			res.Violate("C19/huge-short", "a 2 GiB string one byte short was accepted", si)
+		}
+		res.Fingerprint = log.Hash()
+		res.Sample = map[string]any{"huge_bytes": n}
+		return res
+	}
 	// ---- sender: build the stream with the real appenders, checked against the reference
 	for si, st := range p.Steps {
 		start := len(stream)
